@@ -102,7 +102,8 @@ def check_cfg(F, R, cfg):
     roots, hit = find_roots(F)
     grp = F.has_cfg("feature=group")
     for i, h in enumerate(hit):
-        if h == 0 and not ("group::ff" in ROOTS[i] and not grp):
+        tables = F.has_cfg("feature=precomputed-tables")
+        if h == 0 and not ("group::ff" in ROOTS[i] and not grp) and not ("BasepointTable" in ROOTS[i] and not tables):
             R.viol("C10.roots", I("root-pattern-%d" % i), "constant-time root pattern matches no function: %s" % ROOTS[i][:100])
     R.floor("C10.roots", I("constant-time roots"), len(roots), 100)
     T = Taint(F, R, "C10", cfg)
